@@ -132,6 +132,22 @@ func runC04(rc *RunCtx) {
 				r := e.Exec(Tx{Msgs: msgs1(&ct.MsgReceiveMessage{From: Acct(UserIx), Message: raw, Attestation: e.Attest(raw, 0)}), Note: "C04 burn-shaped message to a near-module recipient"})
 				rc.Cov.Cell("C04_near_module", fmt.Sprintf("ok=%v/mints=%d", r.OK, len(r.Deps)))
 			}
+			// body version words: a burn body is version 0 in all four bytes of the word; any other word, whichever byte carries the
+			// difference, is not a burn message this module knows - nothing is minted
+			if rep == 0 {
+				for vi, bv := range []uint32{1, 2, 13, 255, 256, 257, 0x0100, 0xff00, 0x00010000, 0x00ff0000, 0x01000000, 0x7f000000, 0x80000000, 0xffffff00, 0xffff0000, 0xff000000, 0x00010001, 0xffffffff} {
+					nonce++
+					in := &InMsg{Version: 0, Src: 0, Dst: 4, Nonce: nonce, Sender: Messenger(0, 0), Recipient: modulePadded, Caller: make([]byte, 32),
+						Body: BurnBody(bv, Token(0), ref.Pad32(AcctBytes(vi%NAccounts)), big.NewInt(int64(3000+vi)), Structured32(0x45))}
+					raw := in.Bytes()
+					r := e.Exec(Tx{Msgs: msgs1(&ct.MsgReceiveMessage{From: Acct(UserIx), Message: raw, Attestation: e.Attest(raw, vi%3)}), Note: fmt.Sprintf("C04 body version word %#08x", bv)})
+					rc.Cov.Cell("C04_body_version_words", fmt.Sprintf("ok=%v/mints=%d", r.OK, len(r.Deps)))
+					if len(r.Deps) > 0 {
+						rc.Report(Violation{Monitor: "mint-matrix", Sig: "mint-for-unknown-body-version", Props: []string{"C04", "C03"},
+							Detail: fmt.Sprintf("a burn body with version word %#08x led to %d call(s) into the bank / fiat-token-factory: %s", bv, len(r.Deps), depSummary(r.Deps))})
+					}
+				}
+			}
 			// source domain x amount: what is minted does not depend on which domain the burn message comes from
 			if rep == 0 {
 				for di, d := range c04SweepDomains {
